@@ -120,7 +120,17 @@ def r1_flag_agreement(run, w, ctx):
            c.func.attr == "lookup_records"]
   (ln, lc) = _single(looks, "getSummarySourceGroup: lookup_records call")
   kw = [k for k in lc.keywords if k.arg is None and isinstance(k.value, ast.Dict)]
-  if lc.args or len(lc.keywords) != 1 or len(kw) != 1 or len(kw[0].value.keys) != 1:
+  # The group must list its rows in ascending row id order, which is lookup_records' default
+  # (order_by='id'): any explicit ordering other than by 'id' changes that.
+  named = [k for k in lc.keywords if k.arg is not None]
+  order_ok = all(k.arg == "order_by" and isinstance(k.value, ast.Constant) and
+                 k.value.value == "id" for k in named)
+  run.ob(R1, rd.qualname, "lookup_records(%s)" % ", ".join(
+           ("%s=%s" % (k.arg, text(k.value))) if k.arg else "**{...}" for k in lc.keywords),
+         "the group is listed in lookup_records' default order (ascending row id): no sort_by / "
+         "order_by other than 'id' is requested", order_ok, fi=rd.fi, node=lc)
+  if lc.args or len(kw) != 1 or len(kw[0].value.keys) != 1 or \
+      len(lc.keywords) != 1 + len(named):
     raise AnalysisError("getSummarySourceGroup: lookup is not lookup_records(**{key: value})")
   key, val = kw[0].value.keys[0], kw[0].value.values[0]
   test, vt, vf = _cond_value(rd, val)
@@ -750,6 +760,12 @@ S = "sandbox/grist/summary.py"
 DM = "sandbox/grist/docmodel.py"
 EN = "sandbox/grist/engine.py"
 VARIANTS = [
+  ("group-ordered-like-view", "sandbox/grist/table.py", """      result = self._summary_source_table.lookup_records(**{
+        self._summary_helper_col_id: lookup_value
+      })""", """      result = self._summary_source_table.lookup_records(order_by=None, **{
+        self._summary_helper_col_id: lookup_value
+      })""", "C12-R1"),
+
   ("attachments-not-flattened", "sandbox/grist/summary.py", """  elif source_type == 'Attachments':
     # Attachments is a list of references to _grist_Attachments.
     return 'Ref:_grist_Attachments'
